@@ -43,7 +43,7 @@ fn helper_exhaustive(bits: u32, out: &mut Vec<Failure>) -> u64 {
         let mut free = true;
         for i in 0..set.len() { for j in 0..set.len() { if i != j && crate::c17::pfx(&set[i], &set[j]) { free = false; } } }
         if got != free && out.len() < 5 {
-            out.push(Failure { clause: "auditor/ensure_prefix_free#E_prefix_free".into(), case: vec!["c09".into(), "helper".into()],
+            out.push(Failure { clause: (if got && !free { "auditor/ensure_prefix_free#E_prefix_free" } else { "auditor/ensure_prefix_free#completeness" }).into(), case: vec!["c09".into(), "helper".into()],
                 input: format!("node labels {:?}", set.iter().map(|l| (l.label_val[0], l.label_len)).collect::<Vec<_>>()),
                 expected: format!("accepted == {free}"), observed: format!("accepted == {got}"), finding_id: None });
         }
